@@ -146,17 +146,11 @@ func (builder *RuleBuilder) BuildRuleFromResource(name, version string, resource
 	}
 
 	// Immediately parse the loaded resource
-	is := antlr.NewInputStream(string(data))
-	lexer := parser.Newgrulev3Lexer(is)
+	text := string(data)
 
 	errReporter := &pkg.GruleErrorReporter{
 		Errors: make([]error, 0),
 	}
-
-	lexer.RemoveErrorListeners()
-	lexer.AddErrorListener(errReporter)
-
-	stream := antlr.NewCommonTokenStream(lexer, antlr.TokenDefaultChannel)
 
 	knowledgeBase := builder.KnowledgeLibrary.GetKnowledgeBase(name, version)
 	if knowledgeBase == nil {
@@ -166,13 +160,29 @@ func (builder *RuleBuilder) BuildRuleFromResource(name, version string, resource
 
 	listener := antlr2.NewGruleV3ParserListener(knowledgeBase, errReporter)
 
-	psr := parser.Newgrulev3Parser(stream)
+	// The text is parsed with the cheap SLL prediction first. A text that SLL accepts has the same parse tree under
+	// full LL prediction; only a text it reports an error for is parsed again, in LL mode, before anything is reported.
+	// On a long member or selector chain (a.b.b.b...) full LL prediction takes minutes where SLL takes a second.
+	var tree parser.IGrlContext
+	for _, mode := range []int{antlr.PredictionModeSLL, antlr.PredictionModeLL} {
+		errReporter.Errors = make([]error, 0)
 
-	psr.RemoveErrorListeners()
-	psr.AddErrorListener(errReporter)
+		lexer := parser.Newgrulev3Lexer(antlr.NewInputStream(text))
+		lexer.RemoveErrorListeners()
+		lexer.AddErrorListener(errReporter)
 
-	psr.BuildParseTrees = true
-	antlr.ParseTreeWalkerDefault.Walk(listener, psr.Grl())
+		psr := parser.Newgrulev3Parser(antlr.NewCommonTokenStream(lexer, antlr.TokenDefaultChannel))
+		psr.RemoveErrorListeners()
+		psr.AddErrorListener(errReporter)
+		psr.BuildParseTrees = true
+		psr.GetInterpreter().SetPredictionMode(mode)
+
+		tree = psr.Grl()
+		if !errReporter.HasError() {
+			break
+		}
+	}
+	antlr.ParseTreeWalkerDefault.Walk(listener, tree)
 
 	grl := listener.Grl
 	for _, ruleEntry := range grl.RuleEntries {
